@@ -374,6 +374,6 @@ PROP = C20()
 
 MANIFEST = dict(
     technique="Lean 4 proofs over an abstract world (exists / listdir order / load outcome universally quantified) + state machine logging loads; candidate names, probe names and caching shape regenerated from the AST; differential run on real directory trees with the real os.listdir orders",
-    text="C20_compose_preferred / C20_direct / C20_legacy (for EVERY listing order the chosen sub-directory is the first listed one that has `metadata`) / C20_slash (same files with a trailing slash) / C20_names + C20_current_before_legacy (current file name wins over the legacy one) / C20_equals_direct_load / C20_cached (over any further access sequence the same object, never loaded again) / C20_errors_missing, _undecodable (RuntimeError naming compose path resp. file), _other_propagate.",
+    text="C20_compose_preferred / C20_direct / C20_legacy (for EVERY listing order the chosen sub-directory is the first listed one that has `metadata`) / C20_slash (same files with a trailing slash; C20_slash_tree: with no hypothesis on the world when it is a set of normalised paths) / C20_names + C20_current_before_legacy (current file name wins over the legacy one) / C20_equals_direct_load / C20_cached (over any further access sequence the same object, never loaded again) / C20_errors_missing, _undecodable (RuntimeError naming compose path resp. file), _other_propagate.",
     note="'Undecodable' is ValueError during load (JSON syntax, bytes, wrong metadata type, validators). Valid JSON of the wrong shape raises KeyError/TypeError unchanged (finding F20). Direct metadata/ together with a sub-directory that has metadata/ resolves to the sub-directory (precedence not fixed by the property; oracle accepts either). URLs are not modelled.",
     ref="7/C20")
